@@ -115,10 +115,11 @@ class StubSteps:
         self.preproc.PREPROCESSORS[:] = self.saved
 
 
-def impl_apply(lst):
+def impl_apply(lst, ret_details=False):
     from nanite import preproc
     try:
-        preproc.apply(_FakeCurve(), identifiers=list(lst), options={})
+        preproc.apply(_FakeCurve(), identifiers=list(lst), options={},
+                      ret_details=ret_details)
         return "ok"
     except BaseException as e:
         return _kind(e)
@@ -249,6 +250,14 @@ def oracle(run, lst, impl, ids, req, opt):
                     f"apply({lst}) -> {ra}, expected {exp}",
                     payload={"api": "apply", "list": lst}, expected=exp,
                     observed=ra, theorem="C14_apply_iff")
+    # acceptance does not depend on whether details are asked for
+    with StubSteps():
+        rad = impl_apply(lst, ret_details=True)
+    if rad != exp:
+        run.failing(SITE_APPLY, key + "|details",
+                    f"apply({lst}, ret_details=True) -> {rad}, expected {exp}",
+                    payload={"api": "apply", "list": lst}, expected=exp,
+                    observed=rad, theorem="C14_apply_iff")
 
 
 def history_apply(run, ids, req):
